@@ -1,8 +1,103 @@
 import MidnightZK.Model.Common
-/-! Line-protocol handler of property C04 (stub: answers `unimplemented`). -/
-namespace MidnightZK.C04.Driver
+import MidnightZK.Model.C04.Interp
+import MidnightZK.Gen.C04Gates
+/-! Line-protocol handler of property C04.
 
-def answer (_line : String) : String := "unimplemented"
+* `trace <nr_cols> <max_bit_len> ; op … ; op …` — canonical structure of the synthesis of the
+  program (regions, selectors, fixed cells, copy constraints, table) and the cells of its
+  variables;
+* `eval <hdr> ; <inputs>` — the value of every variable according to the specification;
+* `check <hdr> ; <advice values in canonical cell order>` — does the model's constraint system
+  accept this assignment (1/0).
+-/
+namespace MidnightZK.C04.Driver
+open MidnightZK MidnightZK.C04
+
+abbrev P : Nat := Gen.nativeModulus
+instance : NeZero P := ⟨by decide⟩
+abbrev Fp := Fin P
+
+def fi : FieldInfo := { p := P, numBits := Gen.nativeNumBits }
+def ofN (n : Nat) : Fp := Fin.ofNat P n
+
+def parseHeader (toks : List String) : Option (RunSt Fp × List (List String)) :=
+  match splitOps toks with
+  | [nr, mbl] :: ops => do
+    let nr ← parseNat? nr
+    let mbl ← parseNat? mbl
+    if nr = 0 ∨ nr > 4 then none else
+    some ({ st := St.init nr mbl }, ops)
+  | _ => none
+
+def renderVars (vars : Array Var) : String :=
+  s!"O[{" ".intercalate (vars.toList.map (fun v => s!"{v.ty.render}:{v.cell.render}"))}]"
+
+def trace (toks : List String) : String :=
+  match parseHeader toks with
+  | none => "bad-op"
+  | some (r0, ops) =>
+    match runOps fi ofN r0 ops with
+    | none => "bad-op"
+    | some r => s!"{r.st.render (fun (x : Fp) => x.val)} {renderVars r.vars}"
+
+def eval (toks : List String) : String :=
+  match splitOps toks with
+  | [_nr, _mbl] :: rest =>
+    match rest.reverse with
+    | [ins] :: opsRev =>
+      match parseNatList? ins with
+      | none => "bad-op"
+      | some inputs =>
+        match evalOps fi #[] inputs opsRev.reverse with
+        | none => "bad-op"
+        | some vals => fmtHexList vals.toList
+    | _ => "bad-op"
+  | _ => "bad-op"
+
+/-- Advice cells of a state in canonical order (region, offset, column). -/
+def adviceCells (s : St Fp) : List Cell :=
+  let rs := s.regions.reverse
+  rs.zipIdx.flatMap (fun (rows, k) =>
+    rows.zipIdx.flatMap (fun (row, off) =>
+      (row.adv.mergeSort (· ≤ ·)).map (fun i => (⟨k, off, .adv i⟩ : Cell))))
+
+def fixedCells (s : St Fp) : List (Cell × Fp) :=
+  let rs := s.regions.reverse
+  rs.zipIdx.flatMap (fun (rows, k) =>
+    rows.zipIdx.filterMap (fun (row, off) =>
+      row.fixedVal.map (fun v => ((⟨k, off, .fix fixedValuesCol⟩ : Cell), v))))
+
+def cellKey (c : Cell) : Nat :=
+  match c.col with
+  | .adv i => (c.region * 4096 + c.off) * 32 + i
+  | .fix i => (c.region * 4096 + c.off) * 32 + 16 + i
+
+def check (toks : List String) : String :=
+  match splitOps toks with
+  | [nr, mbl] :: rest =>
+    match rest.reverse with
+    | [vals] :: opsRev =>
+      match parseHeader ([nr, mbl] ++ (opsRev.reverse.flatMap (fun o => ";" :: o))), parseNatList? vals with
+      | some (r0, ops), some vals =>
+        match runOps fi ofN r0 ops with
+        | none => "bad-op"
+        | some r =>
+          let cells := adviceCells r.st
+          if cells.length ≠ vals.length then s!"bad-assignment {cells.length}" else
+          let m : Std.HashMap Nat Fp := (cells.zip vals).foldl (fun m (c, v) => m.insert (cellKey c) (ofN v)) {}
+          let m := (fixedCells r.st).foldl (fun m (c, v) => m.insert (cellKey c) v) m
+          let asg : Cell → Fp := fun c => m.getD (cellKey c) 0
+          fmtBool (r.st.holdsB (fun t (v : Fp) => decide (v.val < 2 ^ t)) asg)
+      | _, _ => "bad-op"
+    | _ => "bad-op"
+  | _ => "bad-op"
+
+def answer (line : String) : String :=
+  match words line with
+  | "trace" :: rest => trace rest
+  | "eval" :: rest => eval rest
+  | "check" :: rest => check rest
+  | _ => "bad-op"
 
 end MidnightZK.C04.Driver
 
